@@ -612,6 +612,27 @@ func numberSweepFamily(dom Domain) Family {
 			f.Glyphs["A"].VStem = append([]funit.Int16(nil), stems[(k+1)%len(stems)]...)
 		}},
 	}
+	// a single large first step (the numerator of the quotient written for it
+	// still fits 32 bits: q*|x| < 2^31), followed by small ones
+	bigSteps := []float64{25000000.5, -30000000.25, 20000000 + 1.0/3, 700000000.5, -1000000000.5, 21474836.47, 16777216.5, 4194304.125, 1234567.875, 1000000000, 2147483647, -2147483648}
+	fields = append(fields,
+		fl("x of the first point of A", bigSteps, func(f *type1.Font, v float64) {
+			g := f.Glyphs["A"]
+			g.Cmds, g.HStem, g.VStem = nil, nil, nil
+			g.MoveTo(v, 100)
+			g.LineTo(v+50.5, 200)
+			g.CurveTo(v+60, 210.25, v+70, 220, v+50.5, 300)
+			g.LineTo(v, 300)
+			g.ClosePath()
+		}),
+		fl("y of the second point of A", bigSteps, func(f *type1.Font, v float64) {
+			g := f.Glyphs["A"]
+			g.Cmds, g.HStem, g.VStem = nil, nil, nil
+			g.MoveTo(10, 0) // (the step to v is v itself: inside the 32-bit range)
+			g.LineTo(10, v)
+			g.LineTo(60.5, v)
+			g.ClosePath()
+		}))
 	for m := 0; m < 6; m++ {
 		m := m
 		fields = append(fields, fl(fmt.Sprintf("FontMatrix[%d]", m), floats, func(f *type1.Font, v float64) {
